@@ -268,3 +268,16 @@ package font
 //@   atreturn#1 default_without_an_encoding_entry: t1.Encoding == "StandardEncoding"
 //@   atreturn#3 named_encoding: istype(encodingObj, core.Name) && sameseq(t1.Encoding, astype(encodingObj, core.Name))
 //@   atreturn#6 base_encoding_of_the_dictionary: istype(encodingObj, core.Dict) && (isnil(astype(encodingObj, core.Dict).Get("BaseEncoding")) ==> t1.Encoding == "StandardEncoding") && (istype(astype(encodingObj, core.Dict).Get("BaseEncoding"), core.Name) ==> sameseq(t1.Encoding, astype(astype(encodingObj, core.Dict).Get("BaseEncoding"), core.Name)))
+
+// ---- C07: the ToUnicode CMap of a composite font is taken from the stream the /ToUnicode entry designates, whether the
+// entry is the stream itself or an indirect reference to it ----
+//@ func (*Type0Font) parseDescendantFont results (err)
+//@   property C07
+//@   flags nosafety
+//@   ensures only_the_descendant_is_set: t0.ToUnicode == old(t0.ToUnicode) && t0.Font == old(t0.Font) && t0.Encoding == old(t0.Encoding)
+//@ func NewType0Font results (res, err)
+//@   property C07
+//@   flags nosafety
+//@   ensures direct_stream_is_used: !err && istype(fontDict.Get("ToUnicode"), "*core.Stream") && !isnil(astype(fontDict.Get("ToUnicode"), "*core.Stream")) ==> res.ToUnicode == astype(fontDict.Get("ToUnicode"), "*core.Stream")
+//@   ensures referenced_stream_is_used: !err && istype(fontDict.Get("ToUnicode"), core.IndirectRef) && !resolver$1(astype(fontDict.Get("ToUnicode"), core.IndirectRef)) && istype(resolver(astype(fontDict.Get("ToUnicode"), core.IndirectRef)), "*core.Stream") && !isnil(astype(resolver(astype(fontDict.Get("ToUnicode"), core.IndirectRef)), "*core.Stream")) ==> res.ToUnicode == astype(resolver(astype(fontDict.Get("ToUnicode"), core.IndirectRef)), "*core.Stream")
+//@   callsite ParseToUnicodeCMap(s) requires cmap_parsed_from_the_designated_stream: s == stream && !isnil(stream)
